@@ -733,16 +733,22 @@ fn gen(rng: &mut Rng, tier: &str) -> Vec<(String, Value)> {
     let walks: Vec<Vec<(usize, usize, usize)>> = vec![
         vec![(0, 0, 5), (0, 1, 5), (0, 3, 5), (0, 3, 5), (0, 4, 5)],
         vec![(0, 1, 2), (0, 2, 2), (0, 4, 2)],
+        // jumps of three and four versions: three or four deltas to follow, so that a list can lack one serial and
+        // repeat another with the count still right (only faults of the delta list are planted on these walks)
+        vec![(0, 0, 5), (0, 3, 5), (0, 4, 5)],
+        vec![(0, 0, 5), (0, 4, 5)],
     ];
     for (hi, h) in hists.iter().enumerate() {
         for (wi, walk) in walks.iter().enumerate() {
             let walk: Vec<(usize, usize, usize)> = walk.iter().map(|(a, v, w)| (*a, (*v).min(h.versions.len() - 1), *w)).collect();
             if !thorough && hi >= 1 && wi == 1 { continue }
             // quick tier: the full fault list on the first history, every eighth fault on the others
-            let stride = if thorough || (hi < 1 && wi == 0) { 1 } else if wi == 1 { 3 } else { 8 };
+            let list_only = wi >= 2;
+            let stride = if thorough || (hi < 1 && (wi == 0 || list_only)) { 1 } else if wi == 1 || list_only { 3 } else { 8 };
             let honest = honest_walk(std::slice::from_ref(h), &walk);
             for t in 0..honest.len() {
                 for (fi, (name, step, cfg)) in faults_of(&honest[t], h, walk[t].1).into_iter().enumerate() {
+                    if list_only && !name.starts_with("l.") { continue }
                     if (fi + t + hi) % stride != 0 { continue }
                     let mut steps = honest.clone();
                     steps[t] = step;
